@@ -122,8 +122,11 @@ def check_case(ctx, case):
                 ctx.violation("linearity", f"{name}: clicks(k*a) = {b!r} but k*clicks(a) = {k * a!r} (k={k})", case)
     else:  # from a trajectory row
         shot = build.shot(case["shot"])
-        hit = Calculator().fire(shot, Distance.Foot(case["range_ft"]), Distance.Foot(case["range_ft"] / 4))
-        row = hit[case["row"]]
+        try:
+            rows = list(Calculator().fire(shot, Distance.Foot(case["range_ft"]), Distance.Foot(case["range_ft"] / 4)))
+        except pb.RangeError as err:
+            rows = list(err.incomplete_trajectory)
+        row = rows[min(case["row"], len(rows) - 1)]
         drop, wind = row.drop_adj.raw_value, row.windage_adj.raw_value
         case = dict(case, target={"m": (row.distance >> Distance.Meter), "unit": "Meter"})
         if case["target"]["m"] <= 0:
